@@ -9,6 +9,7 @@ CLAIMED = {
  'C01': 'per layer class: the real from-buffer constructor and size/header_size/trailer_size/clone/destructor on every buffer of each length up to a calibrated per-class bound, inner layers as contract stubs; memory safety, termination, no leak, only malformed_packet escapes. Option containers are an append model; byte-walking parsers (options, DNS records, RadioTap fields) reach only short variable parts - see evidence bounds',
  'C02': 'per layer class (fixed-header classes and the option-free shape of TCP): the real parse of a symbolic buffer with a real RawPDU payload of 0..3 symbolic bytes, then the real serialize(): no exception, exactly size() bytes, payload bytes unmodified at offset header_size(), every write inside the output vector. Option containers, API-built packets and edit histories are outside',
  'C03': 'same units as C02: parse -> serialize -> parse: accepted again, every stored-field getter equal, next-protocol tags preserved in front of an unrecognised non-empty payload, payload equal (modulo Ethernet minimum-frame padding), second serialization byte-identical',
+ 'C04': 'typed option codecs through the real std::vector<PDUOption> with a concrete option count and symbolic values: TCP (mss, winscale, sack_permitted, timestamp, sack, altchecksum, search/remove), IP (stream identifier, NOP, padding), ICMPv6 (source link-layer address, MTU), DHCP (type, lease time, server identifier, subnet mask); getters after each edit and serialize -> parse round trip. All other typed options and edit histories are NOT decided',
  'C05': 'checksum kernels (sum_range, do_checksum, IPv4 pseudo-header, crc32) against RFC 1071 / IEEE 802.3 references for every buffer of each length in the bound; the per-layer serializers that use them are not encoded yet',
  'C06': 'RFC 1982 comparison kernel (seq_compare) for all 2^64 pairs: sign, antisymmetry, shift invariance; plus TCPIP::DataTracker on the real std::map/std::vector for k=2 segments of every shape inside a 3-byte window at initial sequence numbers bracketing the wrap point, stream bytes symbolic; the legacy TCPStream and Flow callbacks are outside',
  'C07': 'only the connection key: StreamIdentifier construction / operator< / operator== / serialize on fully symbolic endpoints (direction independence, equality exactly on the same unordered endpoint pair, strict weak order, IPv4 vs IPv6 keys). The stateful follower (announce once, erase at finish, limits, keep-alive, callbacks) is NOT decided',
@@ -25,7 +26,6 @@ NA = {
  'C11': 'attempted and out of reach: RadioTap::RadioTap() (six in-place vector insertions through Utils::RadioTapWriter) alone gets no verdict from CBMC in 300 s / 12 GB, and the from-buffer parser is only decided up to 3 option bytes (C01); the inductive setter step of DESIGN 5/C11 therefore cannot be discharged on this image',
  'C10': 'not decided: the section getters and add_* editors work on std::string / std::list<record> built from a symbolic-length byte walk; DNS(buffer) itself is only decided up to 14 bytes (C01) and no editor query finished; no claim is made',
  'C08': 'not decided: IPv4Stream/IPv4Reassembler keep std::vector<IPv4Fragment> + std::map keyed by address pairs and re-parse the concatenated payload through the full dispatcher; no harness with more than one fragment finished within the budget; no claim is made',
- 'C04': 'not decided as a whole: typed option setters/getters need the real std::vector<PDUOption> with several elements, which this encoding does not finish (see DESIGN 2.5 / 7); scalar header fields are covered by C15 and raw option value semantics by C12(b)',
  'C17': 'file round-trip and BPF filter semantics are libpcap + file-system behaviour (FFI / I/O); once they are stubbed nothing libtins-authored remains except the exception filter of the capture loop',
 }
 PENDING = 'not decided by the committed machinery yet (see DESIGN.md for the planned encoding); no claim is made'
